@@ -74,6 +74,7 @@ class Lin:
         self.IN = {}
         self.rets = []
         self.groups = list(groups)
+        self.pairs = []        # [(reg a, reg b)]: registers that move in lockstep (a - b is joined as an invariant)
         self.watch = None      # set of cell keys whose stored values are recorded in self.watched
         self.watched = {}      # [(key of next, key of avail, key of total or None)]: counters that are joined relationally
 
@@ -203,7 +204,21 @@ class Lin:
             return {'r': dict(b['r']), 'm': dict(b['m'])}, True
         ch = False
         out = {'r': {}, 'm': {}}
-        for r in set(a['r']) | set(b['r']):
+        rdone = set()
+        for ra, rb in self.pairs:
+            xa, ya = a['r'].get(ra, {ra + '@entry': 1}), a['r'].get(rb, {rb + '@entry': 1})
+            xb, yb = b['r'].get(ra, {ra + '@entry': 1}), b['r'].get(rb, {rb + '@entry': 1})
+            if canon(xa) == canon(xb) and canon(ya) == canon(yb):
+                continue
+            if canon(add(xa, ya, -1)) != canon(add(xb, yb, -1)):
+                continue
+            J = {('J', addr, rb): 1}
+            out['r'][rb] = J
+            out['r'][ra] = add(J, add(xa, ya, -1))
+            rdone |= {ra, rb}
+            if canon(out['r'][rb]) != canon(ya) or canon(out['r'][ra]) != canon(xa):
+                ch = True
+        for r in (set(a['r']) | set(b['r'])) - rdone:
             x = a['r'].get(r, {r + '@entry': 1})
             y = b['r'].get(r, {r + '@entry': 1})
             if canon(x) == canon(y):
